@@ -26,8 +26,9 @@ out=['# Seeded changes and the checks that catch them','',
  'I confirmed each one myself (`confirmation.txt`: suite passes with the change, the demonstration fails with it and passes without it) and ran every registered quick check against it (`checks.txt`; `scripts/seedtest.sh`).','',
  '| seed | change | needs | confirmed | caught by own property | obligations of the own property | other properties that alarm |','|---|---|---|---|---|---|---|']
 for sid,summ,needs,ok,alarms,hit in rows:
-    own=alarms.get(sid,[])
-    others=[p for p in hit if p!=sid]
-    out.append(f"| {sid} | {summ[:160]} | {needs[:120]} | {'yes' if ok else 'NO'} | {'yes' if own else ('NOT RUN' if sid not in alarms else 'NO')} | {'; '.join(sorted(set(own))[:4])} | {' '.join(others)} |")
+    prop=sid[:3]
+    own=alarms.get(prop,[])
+    others=[p for p in hit if p!=prop]
+    out.append(f"| {sid} | {summ[:160]} | {needs[:120]} | {'yes' if ok else 'NO'} | {'yes' if own else ('NOT RUN' if prop not in alarms else 'NO')} | {'; '.join(sorted(set(own))[:4])} | {' '.join(others)} |")
 open('/verif/seeded/RESULTS.md','w').write('\n'.join(out)+'\n')
 print('\n'.join(out[-len(rows):]))
